@@ -490,6 +490,102 @@ def block_grids(tier):
 # =========================================================================================================
 # phase L : LogToFile resume
 # =========================================================================================================
+# ---------------------------------------------------------------------------------------------------------------------
+# G: files whose size crosses 2**31 and 2**32 bytes.  The bulk of such a file is a hole of zero bytes (byte for byte the
+# records addField(0.0, zeros) writes), created with os.truncate; real records sit at both ends and every handle kind
+# (the creating one, FieldsIO.fromFile, <Class>.fromFile) reads both ends, the middle, and appends.
+# ---------------------------------------------------------------------------------------------------------------------
+LARGE_CASES = [(cls, dt, lim) for cls in ('Scalar', 'Rectilinear') for dt in (0, 3) for lim in (31, 32)]
+
+
+def large_case(case):
+    cls, dt, lim = case
+    dtype = DTYPES[dt]
+    rng = np.random.default_rng(1000 * lim + 10 * dt + len(cls))
+    fails = []
+    info = {'case': list(case)}
+
+    def bits(a):
+        return np.ascontiguousarray(a).tobytes()
+
+    with crash.Scratch('c16') as wd:
+        path = os.path.join(wd, 'large.pysdc')
+        if cls == 'Scalar':
+            w = io.CLASSES['Scalar'](dtype, path)
+            w.setHeader(nVar=1 << 16)
+            shape = (1 << 16,)
+        else:
+            w = io.CLASSES['Rectilinear'](dtype, path)
+            coords = [np.sort(rng.random(n)) for n in (32, 32, 16)]
+            w.setHeader(nVar=4, coords=coords)
+            shape = (4, 32, 32, 16)
+        w.initialize()
+
+        def field():
+            a = rng.standard_normal(shape)
+            if np.dtype(dtype).kind == 'c':
+                a = a + 1j * rng.standard_normal(shape)
+            return a.astype(dtype)
+
+        rec = w.tSize + w.fSize
+        recs = {}
+        for i, t in enumerate((0.25, 0.5)):
+            u = field()
+            w.addField(t, u)
+            recs[i] = (t, u)
+        nzero = ((1 << lim) - w.hSize) // rec + 2 - 2  # after two more real records the file is past the limit
+        os.truncate(path, w.hSize + (2 + nzero) * rec)
+        ntot = 2 + nzero
+        for t in (7.5, 8.0):
+            u = field()
+            w.addField(t, u)
+            recs[ntot] = (t, u)
+            ntot += 1
+        info['file_size'] = os.path.getsize(path)
+        info['records'] = int(ntot)
+        if not info['file_size'] > (1 << lim):
+            raise RuntimeError('harness: file did not cross the limit')
+        zero = np.zeros(shape, dtype=dtype)
+
+        def check_handle(name, h):
+            try:
+                if h.nFields != ntot:
+                    fails.append({'what': 'record_count', 'handle': name, 'detail': {'expected': ntot, 'observed': int(h.nFields)}})
+                    return
+                for idx in (0, 1, ntot - 2, ntot - 1, -1, -2, -ntot, ntot // 2):
+                    pos = idx if idx >= 0 else ntot + idx
+                    t, u = h.readField(idx)
+                    wt, wu = recs.get(pos, (0.0, zero))
+                    if not (t == wt and h.time(idx) == wt):
+                        fails.append({'what': 'time_differs', 'handle': name, 'detail': {'index': idx, 'expected': wt, 'observed': float(t)}})
+                        return
+                    if not (u.shape == wu.shape and u.dtype == wu.dtype and bits(u) == bits(wu)):
+                        fails.append({'what': 'field_bits_differ', 'handle': name, 'detail': {'index': idx}})
+                        return
+                ts = h.times
+                if len(ts) != ntot or ts[0] != 0.25 or ts[-1] != recs[ntot - 1][0]:
+                    fails.append({'what': 'times_differ', 'handle': name, 'detail': {'len': len(ts)}})
+            except Exception as e:  # noqa: BLE001
+                fails.append({'what': 'read_raised', 'handle': name, 'detail': {'error': f'{type(e).__name__}: {e}'[:200]}})
+
+        check_handle('creating handle', w)
+        check_handle('FieldsIO.fromFile', FieldsIO.fromFile(path))
+        check_handle(f'{cls}.fromFile', io.CLASSES[cls].fromFile(path))
+        if not fails:
+            try:
+                r = FieldsIO.fromFile(path)
+                u = field()
+                r.addField(8.5, u)
+                recs[ntot] = (8.5, u)
+                ntot += 1
+            except Exception as e:  # noqa: BLE001
+                fails.append({'what': 'append_raised', 'handle': 'FieldsIO.fromFile', 'detail': {'error': f'{type(e).__name__}: {e}'[:200]}})
+            else:
+                check_handle('creating handle after append through a re-opened one', w)
+                check_handle('FieldsIO.fromFile after append', FieldsIO.fromFile(path))
+    return case, fails, info
+
+
 DT_L = 0.125
 LTF_REC = 8 + 2 * 16  # bytes of one record of the two-variable complex test equation (checked at run time)
 
@@ -887,6 +983,19 @@ def run(rep, tier):
 
     tick = _tick(cov, 'B', tick)
 
+    # ---------------- G: files beyond 2**31 / 2**32 bytes ----------------
+    G = {'cases': 0, 'largest_file_bytes': 0, 'records_in_largest_file': 0}
+    for case, gf, ginfo in common.pimap_unordered(large_case, LARGE_CASES):
+        G['cases'] += 1
+        if ginfo['file_size'] > G['largest_file_bytes']:
+            G['largest_file_bytes'], G['records_in_largest_file'] = ginfo['file_size'], ginfo['records']
+        for f in gf:
+            sig = {'kind': 'large_file', 'what': f['what'], 'class': case[0], 'handle': 're-opened' if 'fromFile' in f['handle'] else 'creating'}
+            coll.add(sig, (4, case[2], case[1], case[0]), {'case': list(case), 'dtype': np.dtype(DTYPES[case[1]]).name, 'handle': f['handle'], 'observation': f['detail'], 'file_size_bytes': ginfo['file_size']}, {'mode': 'large', 'case': list(case)})
+    bounds.append({'space': 'G: (Scalar, Rectilinear) x (' + ', '.join(np.dtype(DTYPES[d]).name for d in (0, 3)) + ') x file size just beyond 2**31 and 2**32 bytes (hole of zero records between real records at both ends): every handle kind reads first / last / middle records and times; append through a re-opened handle', 'cases': G['cases']})
+    cov['large_files'] = G
+    tick = _tick(cov, 'G', tick)
+
     # ---------------- L: LogToFile ----------------
     lcases = ltf_cases()
     L = {'cases': 0, 'failed': 0}
@@ -985,6 +1094,10 @@ def replay(rep, case):
             fail, info = ltf_case(c)
             if fail:
                 rep.violation(ltf_signature(c, fail), {'case': list(c), 'index': fail.get('index'), 'observation': fail.get('detail')}, case)
+        elif mode == 'large':
+            c, gf, ginfo = large_case(tuple(case['case']))
+            for f in gf:
+                rep.violation({'kind': 'large_file', 'what': f['what'], 'class': c[0], 'handle': 're-opened' if 'fromFile' in f['handle'] else 'creating'}, {'case': list(c), 'handle': f['handle'], 'observation': f['detail'], 'file_size_bytes': ginfo['file_size']}, case)
         else:
             raise ValueError(f'unknown replay mode {mode!r}')
     finally:
